@@ -307,6 +307,12 @@ fn deep_specs(n: usize, emails_cap: usize) -> Vec<(String, &'static str)> {
     v.push((rep(b"<!--", n, b"\n", b"", 0), "many-comment-openers"));
     v.push((rep(b"a\n: ", n.min(20_000), b"b\n", b"", 0), "description-chain"));
     v.push((rep(b"$`a", n.min(4_000), b"", b"", 0), "math-code-openers"));
+    // reference expansion across the budget max(100000, input size): a long destination / title used many times,
+    // so that expansions fill the budget, one is refused, and further uses follow
+    let uses = n.min(600).max(150);
+    v.push((spec_of(&[(b"[a]: /", 1), (b"x", 1000), (b"\n\n", 1), (b"[a]\n", uses)]), "reference-expansion-long-url"));
+    v.push((spec_of(&[(b"[a]: /u \"", 1), (b"t", 3000), (b"\"\n\n", 1), (b"[a] ", uses)]), "reference-expansion-long-title"));
+    v.push((spec_of(&[(b"[a]: /", 1), (b"x", 1000), (b"\n[b]: /", 1), (b"y", 800), (b"\n\n", 1), (b"[a] [b] ![b][a]\n", uses)]), "reference-expansion-two-labels"));
     v
 }
 
